@@ -394,16 +394,19 @@ pub fn run(ctx: &Ctx) -> PropResult {
         res.inconclusive = Some(e);
         return res;
     }
-    let max_len = if ctx.thorough { 5 } else { 4 };
-    let max_n = 16;
+    let max_len = if ctx.tiny { 2 } else if ctx.thorough { 5 } else { 4 };
+    let max_n = if ctx.tiny { 5 } else { 16 };
     let a = ALPHABET.len();
     // shards: one per 2-symbol prefix, plus one for the strings of length < 2
     let n_ex = a * a + 1;
-    let rand_shards = 64usize;
-    let rand_cases = ctx.scaled(if ctx.thorough { 40_000 } else { 2_500 });
-    let longs = long_inputs().len();
+    let rand_shards = if ctx.tiny { 4usize } else { 64usize };
+    let rand_cases = if ctx.tiny { 25 } else { ctx.scaled(if ctx.thorough { 40_000 } else { 2_500 }) };
+    let longs = if ctx.tiny { 0 } else { long_inputs().len() };
     let mut all: Vec<&'static IfaceDesc> = vec![mini, ctx.iface("pzoo")];
     all.extend(ctx.random_ifaces());
+    if ctx.tiny {
+        all.truncate(6);
+    }
     let long_ifaces: Vec<&'static IfaceDesc> = vec![mini, ctx.iface("pzoo"), ctx.iface("qdev2")];
     let total = n_ex + rand_shards + longs;
     let accs = par::run_shards(
